@@ -1379,8 +1379,8 @@ class DNA(symbolic.Object):
         dna = decision
       else:
         dna = DNA(decision)
-    dna_spec.validate(dna)
-    return dna
+    # Validate the DNA and bind it with the spec.
+    return dna.use_spec(dna_spec)
 
   def sym_jsonify(
       self,
